@@ -28,6 +28,7 @@ type PathResult struct {
 	Outcome   string // ok, violation, panic, unsupported, infeasible, budget, solver-unknown, engine, done
 	Msg       string
 	Trace     []int32
+	Forks     []int32
 	Inputs    map[string]interface{}
 	Reached   []string
 	Observed  []string
@@ -120,6 +121,7 @@ func (w *World) RunPath(fn *ssa.Function, s *smt.Solver, prefix []int32, maxStep
 		}()
 	}
 	res.Trace = p.Trace
+	res.Forks = p.Forks
 	res.Inputs = p.InputValues()
 	res.Reached = p.ReachedList()
 	res.Observed = p.Observed
@@ -226,6 +228,10 @@ func (w *World) Explore(name string, opt Options) (*Report, error) {
 				if opt.StopOnViolation {
 					stop = true
 				}
+			}
+			if res.Outcome == "budget" && len(rep.Violations) < 50 {
+				rep.Violations = append(rep.Violations, &Violation{Label: "budget", Inputs: res.Inputs,
+					Forks: append([]int32(nil), p.Forks...), Trace: res.Trace, Detail: res.Msg})
 			}
 			if res.Outcome == "panic" && len(rep.Violations) < 50 {
 				// an uncaught panic out of the harness is itself a finding candidate
